@@ -624,7 +624,8 @@ fn push(out: &mut Vec<String>, s: String) {
 /// option tokens of the documented CLI grammar
 fn cli_option(g: &mut Gen) -> Vec<String> {
     let r = g.reformation();
-    let codes = ["gb", "GB", "Gb", "it", "US", "se", "RU", "tr", "xx", "g", "gbr", ""];
+    let codes = ["gb", "GB", "Gb", "it", "US", "se", "RU", "tr", "xx", "g", "gbr", "", "\u{e9}", "\u{df}", "\u{3bb}", "\u{44f}",
+        "\u{aa}", "\u{e9}a", "a\u{e9}", "\u{65e5}", "\u{130}", "\u{131}t", "g\u{212a}", "\u{1d5a}b", "zz", "ZZ", "aa", "a1", "1a", "g b", "gb "];
     let rv = match g.rng.below(6) {
         0 if g.rng.chance(1, 2) => {
             // any country of the table (as it was when this harness was written; the model holds the
@@ -906,6 +907,9 @@ pub fn emit(prop: &str, g: &mut Gen, out: &mut Vec<String>) {
                 // Display / Debug of every public type under width, fill, precision and sign flags
                 let j = g.jdn(&oc);
                 push(out, format!("fmt_flags {ct} {j} {y} {m} {}", g.rng.range(0, 40)));
+                // … and of the shapes and iterators of a month at or beyond the ends of the range (no
+                // date of it, or only some, has a day number)
+                push(out, format!("fmt_flags {ct} {j} {ye} {m} {}", g.rng.range(0, 40)));
             } else {
                 emit(sub, g, out);
             }
@@ -1316,7 +1320,13 @@ pub fn emit(prop: &str, g: &mut Gen, out: &mut Vec<String>) {
                         String::from_utf8(b).unwrap_or_else(|_| "Ma9".into())
                     }
                     6 => base.chars().take(g.rng.below(10) as usize).collect(),
-                    _ => format!("{base}{}", *g.rng.pick(&["s", ".", "day", "\u{0}"])),
+                    _ => {
+                        // something appended or prepended: letters, punctuation, a NUL, and the white space
+                        // and line ends a "helpful" trim or `lines()` would swallow
+                        let extra = *g.rng.pick(&["s", ".", "day", "\u{0}", "\n", "\r\n", "\t", "\n31", "\nTuesday", "\r", " ",
+                            "\u{a0}", "\u{2028}", "\u{85}", "\u{feff}", "\u{200b}"]);
+                        if g.rng.chance(1, 4) { format!("{extra}{base}") } else { format!("{base}{extra}") }
+                    }
                 };
                 let k = if g.rng.chance(1, 2) { "month_str" } else { "wd_str" };
                 push(out, format!("{k} {}", hex_enc(&s)));
